@@ -10,6 +10,7 @@ import VsgProofs.Lemmas.BaseBindEffects
 import VsgProofs.Lemmas.PostPhase1
 import VsgProofs.Lemmas.BaseCaseTok
 import VsgProofs.Lemmas.BaseStructDispatch
+import VsgProofs.Lemmas.BaseMultiDispatch
 namespace Vsgm.C02
 open Vsgm
 
@@ -780,5 +781,306 @@ theorem bfix_split_commentSeq_partial (E : Base.Env) (o : Base.SOwner) (params a
     · subst h; rfl
 
 /-! ### END ag_bstruct -/
+
+/-! ### BEGIN ag_bmulti (multi-line structure family: multiline_structure, fix.py, single rules) -/
+
+open Base.Multi Base.LineStruct in
+/-- **multiline_structure**, every fix function and every action string.  Comments are kept by the `insert`
+    branches and by unknown action strings; by a `remove` branch (`[first, last]`) EXACTLY when no comment
+    stood between the first and the last token of the region (the analysis skips comments when it looks
+    for the region's first token: `multiStruct_commentLost`); `_fix_assign_on_single_line` removes
+    exactly the `parser.comment` instances of its region (the documented removal,
+    multiline_structure.py:536-545); `insert_and_move_comment` keeps them EXACTLY when the comments of
+    the moved tail commute with those it jumps over -/
+theorem bfix_multiStruct_commentSeq (params action : Base.KV) (old new : List Tok)
+    (h : Base.fixByOwner (MOwner.name .multiStruct) params action old = some (.ok new)) :
+    ∃ ty f act, dget action "type" = .ok ty ∧ msFnOf ty = .ok f ∧ dget action "action" = .ok act ∧
+      match msKind f act with
+      | .insert | .noop => commentSeq new = commentSeq old
+      | .collapse => 2 ≤ old.length → (commentSeq new = commentSeq old ↔ commentSeq (middle old) = [])
+      | .join => commentSeq new = commentSeq (removeComments old)
+      | .moveComment => ∃ t0 M D, LayoutOnly old (t0 :: M ++ D) ∧ new = t0 :: D ++ mkCr Base.lineCls :: M ∧
+          (commentSeq new = commentSeq old ↔ commentSeq D ++ commentSeq M = commentSeq M ++ commentSeq D) := by
+  have hm := run_fixM .multiStruct params action old new (mowner_all _) h
+  obtain ⟨ty, f, act, h1, h2, h3, he⟩ := fixMS_effect _ _ action old new hm
+  refine ⟨ty, f, act, h1, h2, h3, ?_⟩
+  cases hk : msKind f act <;> simp only [hk] at he ⊢
+  · exact he.1.commentSeq.symm
+  · intro hlen; exact collapse_commentSeq_iff _ old new he hlen
+  · obtain ⟨t0, M, D, hl, hn⟩ := he
+    refine ⟨t0, M, D, hl, hn, ?_⟩
+    rw [hn]
+    exact moveComment_proj commentSeq blind_commentSeq _ t0 M D old hl
+  · rw [he]; exact joinAssign_commentSeq old
+  · rw [he]
+
+open Base.Multi in
+/-- **GENUINE DEFECT (not documented)**: the `remove` branches of multiline_structure delete comments.
+    `new_line_after_comma: no` on `1, -- one ⏎ 2` hands `_fix_new_line_after_comma` the region
+    `, ␣ --one ⏎ ␣␣ 2` and gets `, ␣ 2` back; the same happens for `last_paren_new_line: no`,
+    `close_paren_new_line: no`, `open_paren_new_line: no` and `first_paren_new_line: no` -/
+theorem multiStruct_commentLost :
+    let old : List Tok := [⟨9, .code, [',']⟩, ⟨Gen.wsCls, .ws, [' ']⟩, ⟨Gen.commentCls, .comment, "-- one".toList⟩,
+      ⟨Gen.crCls, .cr, ['\n']⟩, ⟨Gen.wsCls, .ws, "    ".toList⟩, ⟨9, .code, ['2']⟩]
+    let act : Base.KV := [("type", .dict [("fn", .str "_fix_new_line_after_comma".toList)]), ("action", .str "remove".toList)]
+    ∃ new, Base.fixByOwner (MOwner.name .multiStruct) [] act old = some (.ok new) ∧
+      commentSeq old = ["-- one".toList] ∧ commentSeq new = [] ∧ codeSeq id new = codeSeq id old :=
+  ⟨[⟨9, .code, [',']⟩, ⟨Gen.wsCls, .ws, [' ']⟩, ⟨9, .code, ['2']⟩], by decide +kernel, by decide, by decide, by decide⟩
+
+open Base.Multi Base.LineStruct in
+/-- **multiline_structure, comment still ends its line (every context)**: the `insert` branches always;
+    a `remove` branch when the region's first token is no `--` comment; `_fix_assign_on_single_line`
+    (no comment and no line break is left) when the region does not start with a line break -/
+theorem bfix_multiStruct_celSafe (params action : Base.KV) (old new : List Tok)
+    (h : Base.fixByOwner (MOwner.name .multiStruct) params action old = some (.ok new)) :
+    ∃ ty f act, dget action "type" = .ok ty ∧ msFnOf ty = .ok f ∧ dget action "action" = .ok act ∧
+      match msKind f act with
+      | .insert | .noop => CelSafe old new
+      | .collapse => 2 ≤ old.length → endsLC (old.take 1) = false → CelSafe old new
+      | .join => startsCr old = false → CelSafe old new
+      | .moveComment => True := by
+  have hm := run_fixM .multiStruct params action old new (mowner_all _) h
+  obtain ⟨ty, f, act, h1, h2, h3, he⟩ := fixMS_effect _ _ action old new hm
+  refine ⟨ty, f, act, h1, h2, h3, ?_⟩
+  cases hk : msKind f act <;> simp only [hk] at he ⊢
+  · exact he.2
+  · intro hlen ha; exact collapse_celSafe' _ old new he hlen ha
+  · intro hs; rw [he]; exact joinAssign_celSafe old hs
+  · rw [he]; exact CelSafe.refl' _
+
+open Base.Multi in
+/-- **multiline_simple_structure**: comments kept by "insert" and by unknown types / actions; by "remove"
+    EXACTLY when no comment stood between the assignment operator and the expression; every context keeps
+    comments at their line ends for "insert", and for "remove" when the first token is no comment -/
+theorem bfix_simple_commentSeq (params action : Base.KV) (old new : List Tok)
+    (h : Base.fixByOwner (MOwner.name .simple) params action old = some (.ok new)) :
+    ∃ ty, dget action "type" = .ok ty ∧
+      ((valIs ty "new_line_after_assign" = false ∧ new = old) ∨
+       (valIs ty "new_line_after_assign" = true ∧ ∃ act, dget action "action" = .ok act ∧
+          match simpleKind ty act with
+          | .collapse => 2 ≤ old.length → (commentSeq new = commentSeq old ↔ commentSeq (middle old) = []) ∧
+              (Base.LineStruct.endsLC (old.take 1) = false → Base.LineStruct.CelSafe old new)
+          | _ => commentSeq new = commentSeq old ∧ Base.LineStruct.CelSafe old new)) := by
+  have hm := run_fixM .simple params action old new (mowner_all _) h
+  obtain ⟨ty, h1, hc⟩ := fixSimple_effect _ action old new hm
+  refine ⟨ty, h1, ?_⟩
+  rcases hc with hc | ⟨ht, act, ha, he⟩
+  · exact Or.inl hc
+  · refine Or.inr ⟨ht, act, ha, ?_⟩
+    have hkinds : simpleKind ty act = .insert ∨ simpleKind ty act = .collapse ∨ simpleKind ty act = .noop := by
+      unfold simpleKind; simp only [ht, if_true]
+      by_cases a1 : valIs act "insert" = true
+      · simp [a1]
+      · by_cases a2 : valIs act "remove" = true <;> simp [a1, a2]
+    rcases hkinds with hk | hk | hk <;> simp only [hk] at he ⊢
+    · exact ⟨he.1.commentSeq.symm, he.2⟩
+    · intro hlen; exact ⟨collapse_commentSeq_iff _ old new he hlen, fun ha => collapse_celSafe' _ old new he hlen ha⟩
+    · rw [he]; exact ⟨rfl, Base.LineStruct.CelSafe.refl' _⟩
+
+open Base.Multi in
+/-- **KNOWN DEFECT `commentLost` at multiline_simple_structure**, smallest witness: `a <= -- c ⏎ b;` with
+    the default `new_line_after_assign: no` — the region `<= ␣ -- c ⏎ ␣␣ b` comes back as `<= ␣ b` -/
+theorem simple_commentLost :
+    let old : List Tok := [⟨9, .code, "<=".toList⟩, ⟨Gen.wsCls, .ws, [' ']⟩, ⟨Gen.commentCls, .comment, "-- c".toList⟩,
+      ⟨Gen.crCls, .cr, ['\n']⟩, ⟨Gen.wsCls, .ws, "    ".toList⟩, ⟨9, .code, ['b']⟩]
+    let act : Base.KV := [("type", .str "new_line_after_assign".toList), ("action", .str "remove".toList)]
+    ∃ new, Base.fixByOwner (MOwner.name .simple) [] act old = some (.ok new) ∧
+      commentSeq old = ["-- c".toList] ∧ commentSeq new = [] :=
+  ⟨[⟨9, .code, "<=".toList⟩, ⟨Gen.wsCls, .ws, [' ']⟩, ⟨9, .code, ['b']⟩], by decide +kernel, by decide, by decide⟩
+
+open Base.Multi Base.LineStruct in
+/-- **vsg/rules/fix.py** (6 rules): comments, pragmas and preprocessor lines are kept when the region holds
+    no preprocessor token; they stay at their line ends in every context when the region holds no `--`
+    comment and does not start with a line break — `add_new_line` needs neither hypothesis -/
+theorem bfix_fixpy_commentSeq_partial (o : MOwner) (ho : o.usesFixPy = true) (params action : Base.KV) (old new : List Tok)
+    (h : Base.fixByOwner o.name params action old = some (.ok new)) :
+    ((∀ t ∈ old, t.kind ≠ .preproc) → commentSeq new = commentSeq old) ∧
+    (startsCr old = false → (∀ t ∈ old, isLC t = false) → CelSafe old new) ∧
+    (∀ act, dget action "action" = .ok act → nlKind act = .add → CelSafe old new ∧ commentSeq new = commentSeq old) := by
+  have hm := run_fixM o params action old new (mowner_all _) h
+  have hm' : fixNL Base.multiEnv.c action old = .ok new := by
+    cases o <;> simp [MOwner.usesFixPy] at ho <;> exact hm
+  refine ⟨fun hp => (fixNL_layoutOnly _ action old new hm' hp).commentSeq.symm,
+    (fixNL_celSafe _ action old new hm').2, fun act ha hk => ⟨(fixNL_celSafe _ action old new hm').1 act ha hk, ?_⟩⟩
+  obtain ⟨act', ha', hkk⟩ := fixNL_cases _ action old new hm'
+  rw [ha] at ha'; cases ha'
+  simp only [hk] at hkk
+  exact (addNewLine_spec _ old new hkk).1.commentSeq.symm
+
+open Base.Multi in
+/-- **KNOWN DEFECT `commentAbsorbsCode` at multiline_subprogram_specification_structure** (the same code
+    serves multiline_constraint_structure and multiline_procedure_call_structure), smallest witness:
+    `procedure p -- c ⏎ (a : integer);` — `remove_new_line` gets ` -- c ⏎ ␣␣(` and returns `-- c ␣ (`;
+    and a trailing preprocessor token is deleted by `remove_trailing_whitespace` -/
+theorem fixpy_commentAbsorbsCode :
+    let old : List Tok := [⟨Gen.wsCls, .ws, [' ']⟩, ⟨Gen.commentCls, .comment, "-- c".toList⟩, ⟨Gen.crCls, .cr, ['\n']⟩,
+      ⟨Gen.wsCls, .ws, "  ".toList⟩, ⟨9, .code, ['(']⟩]
+    let act : Base.KV := [("action", .str "remove_new_line".toList)]
+    (∃ new, Base.fixByOwner (MOwner.name .subprogram) [] act old = some (.ok new) ∧
+      commentEndsLine old = true ∧ commentEndsLine new = false) ∧
+    (∃ new, Base.fixByOwner (MOwner.name .subprogram) [] act
+        [⟨9, .code, ['a']⟩, ⟨Gen.crCls, .cr, ['\n']⟩, ⟨35, .preproc, "`if X".toList⟩] = some (.ok new) ∧
+      commentSeq new = []) :=
+  ⟨⟨[⟨Gen.commentCls, .comment, "-- c".toList⟩, ⟨Gen.wsCls, .ws, [' ']⟩, ⟨9, .code, ['(']⟩], by decide +kernel, by decide, by decide⟩,
+   ⟨[⟨9, .code, ['a']⟩], by decide +kernel, by decide⟩⟩
+
+open Base.Multi Base.LineStruct in
+/-- conditional_waveforms_001, concurrent_008, after_002, every action: comments kept;
+    conditional_waveforms_001 (a line break appended) keeps them at their line ends in every context -/
+theorem bfix_multi_inserters_commentSeq (o : MOwner) (ho : o = .condWave001 ∨ o = .concurrent008 ∨ o = .after002)
+    (params action : Base.KV) (old new : List Tok)
+    (h : Base.fixByOwner o.name params action old = some (.ok new)) :
+    commentSeq new = commentSeq old ∧ (o = .condWave001 → CelSafe old new) := by
+  have hm := run_fixM o params action old new (mowner_all _) h
+  rcases ho with rfl | rfl | rfl
+  · exact ⟨(fixCondWave_spec _ old new hm).1.commentSeq.symm, fun _ => (fixCondWave_spec _ old new hm).2⟩
+  · exact ⟨(fixAlignComment_layoutOnly _ _ action old new hm).commentSeq.symm, fun e => by cases e⟩
+  · exact ⟨(fixAlignComment_layoutOnly _ _ action old new hm).commentSeq.symm, fun e => by cases e⟩
+
+open Base.Multi Base.LineStruct in
+/-- **instantiation_005**, action "add": comments kept, at their line ends in every context -/
+theorem bfix_inst005_add_commentSeq (params action : Base.KV) (old new : List Tok)
+    (h : Base.fixByOwner (MOwner.name .inst005) params action old = some (.ok new))
+    (ha : action.get "_str" = some (.str "add".toList)) : commentSeq new = commentSeq old ∧ CelSafe old new := by
+  have hm := run_fixM .inst005 params action old new (mowner_all _) h
+  exact ⟨(fixInst005_add_spec _ action old new hm ha).1.commentSeq.symm, (fixInst005_add_spec _ action old new hm ha).2⟩
+
+open Base.Multi Base.LineStruct in
+/-- **comment_011**: the comment sequence survives the rotation EXACTLY when the comments of the two parts
+    commute; comments stay at their line ends in every context when the part in front of the cut neither
+    starts with a line break nor ends in a comment -/
+theorem bfix_comment011_commentSeq_iff (params action : Base.KV) (old new : List Tok) (i : Int)
+    (h : Base.fixByOwner (MOwner.name .comment011) params action old = some (.ok new))
+    (hi : dget action "iToken" = .ok (.int i)) :
+    (commentSeq new = commentSeq old ↔
+      commentSeq (old.drop (pyCut old.length i)) ++ commentSeq (old.take (pyCut old.length i)) =
+        commentSeq (old.take (pyCut old.length i)) ++ commentSeq (old.drop (pyCut old.length i))) ∧
+    ((old.take (pyCut old.length i) = [] ∨ startsCr (old.take (pyCut old.length i)) = false) →
+      endsLC (old.take (pyCut old.length i)) = false → CelSafe old new) := by
+  have hm := run_fixM .comment011 params action old new (mowner_all _) h
+  obtain ⟨v, b, hv, hb, hn⟩ := fixComment011_eq _ action old new hm
+  rw [hi] at hv; cases hv
+  simp only [asBound] at hb; cases hb
+  have hn' : new = old.drop (pyCut old.length i) ++ [mkCr Base.multiEnv.c] ++ old.take (pyCut old.length i) := hn
+  rw [hn']
+  exact ⟨rotate_proj commentSeq blind_commentSeq _ old _, fun h1 h2 => rotate_celSafe _ old _ h1 h2⟩
+
+open Base.Multi Base.LineStruct in
+/-- **when_001**: comments kept EXACTLY when the moved token commutes with the comments it jumps over (a
+    code token always does); in a region that does not start with a line break the move keeps comments at
+    their line ends when the moved token is neither comment nor line break -/
+theorem bfix_when001_commentSeq_iff (params action : Base.KV) (old new : List Tok)
+    (h : Base.fixByOwner (MOwner.name .when001) params action old = some (.ok new)) :
+    ∃ m x tail, old = m ++ [x] ++ tail ∧ (∀ t ∈ tail, isWs t = true) ∧ m ≠ [] ∧ new = mkWs Base.lineCls :: x :: m ∧
+      (commentSeq new = commentSeq old ↔ commentSeq [x] ++ commentSeq m = commentSeq m ++ commentSeq [x]) ∧
+      (x.isCode = true → commentSeq new = commentSeq old) ∧
+      (startsCr m = false → isLC x = false → isCr x = false → CelSafe old new) := by
+  have hm := run_fixM .when001 params action old new (mowner_all _) h
+  obtain ⟨m, x, tail, hl, ht, hne, hn⟩ := fixWhen001_eq _ old new hm
+  have hiff := when001_proj commentSeq blind_commentSeq Base.multiEnv.c m x tail ht
+  refine ⟨m, x, tail, hl, ht, hne, hn, ?_, ?_, ?_⟩
+  · rw [hn, hl]; exact hiff
+  · intro hx
+    rw [hn, hl]
+    apply hiff.2
+    have : commentSeq [x] = [] := by
+      have hc : x.isCommentLike = false := by
+        unfold Tok.isCode at hx; unfold Tok.isCommentLike Kind.isCommentLike
+        cases hk : x.kind <;> simp_all
+      simp [commentSeq, hc]
+    rw [this]; simp
+  · intro hs hx hxc
+    rw [hn, hl]
+    exact when001_celSafe _ m x tail ht hne hs hx hxc
+
+open Base.Multi in
+/-- **process_021**: comments kept when every blank_line token of the region is followed by its line break -/
+theorem bfix_process021_commentSeq_partial (params action : Base.KV) (old new : List Tok)
+    (h : Base.fixByOwner (MOwner.name .process021) params action old = some (.ok new))
+    (hg : blankThenCr old = true) : commentSeq new = commentSeq old := by
+  have hm := run_fixM .process021 params action old new (mowner_all _) h
+  obtain ⟨st, _, hc⟩ := fixProcess021_cases _ params old new hm
+  rcases hc with ⟨_, h1⟩ | ⟨_, _, h1⟩ | ⟨_, _, h1⟩
+  · exact (dropBlankAndNext_layoutOnly old new h1 hg).1.commentSeq.symm
+  · exact (insertBlankBeforeLast_layoutOnly _ old new h1).commentSeq.symm
+  · rw [h1]
+
+open Base.Multi in
+/-- **KNOWN FINDING `commentAbsorbsCode` at process_021** (style require_blank_line): on
+    `process -- c ⏎ begin` the new `blank_line` token is inserted BETWEEN the comment and the line break that
+    ends it (`… -- c, blank_line, ⏎, ⏎, begin`): at token level the comment is no longer followed by its
+    line break (the text, `blank_line` having the empty value, is unharmed — the same misplacement is the
+    C08 finding) -/
+theorem process021_commentAbsorbsCode :
+    let old : List Tok := [⟨9, .code, "process".toList⟩, ⟨Gen.wsCls, .ws, [' ']⟩, ⟨Gen.commentCls, .comment, "-- c".toList⟩,
+      ⟨Gen.crCls, .cr, ['\n']⟩, ⟨9, .code, "begin".toList⟩]
+    ∃ new, Base.fixByOwner (MOwner.name .process021) [("style", .str "require_blank_line".toList)] [] old = some (.ok new) ∧
+      commentEndsLine old = true ∧ commentEndsLine new = false ∧ commentSeq new = commentSeq old :=
+  ⟨[⟨9, .code, "process".toList⟩, ⟨Gen.wsCls, .ws, [' ']⟩, ⟨Gen.commentCls, .comment, "-- c".toList⟩,
+      ⟨Gen.blankCls, .blank, []⟩, ⟨Gen.crCls, .cr, ['\n']⟩, ⟨Gen.crCls, .cr, ['\n']⟩, ⟨9, .code, "begin".toList⟩],
+    by decide +kernel, by decide, by decide, by decide⟩
+
+open Base.Multi in
+/-- after_003 keeps only the last token of its region: every comment in front of it goes with the
+    `after` clause; process_029 builds a region without any comment -/
+theorem bfix_after003_process029_commentSeq (params action : Base.KV) (old new : List Tok) :
+    (Base.fixByOwner (MOwner.name .after003) params action old = some (.ok new) →
+      ∃ x, old = old.dropLast ++ [x] ∧ commentSeq old = commentSeq old.dropLast ++ commentSeq new) ∧
+    (Base.fixByOwner (MOwner.name .process029) params action old = some (.ok new) → commentSeq new = []) := by
+  constructor
+  · intro h
+    obtain ⟨x, hl, hn⟩ := fixAfter003_eq old new (run_fixM .after003 params action old new (mowner_all _) h)
+    refine ⟨x, hl, ?_⟩
+    rw [hn]
+    conv => lhs; rw [hl]
+    rw [commentSeq_append]
+  · intro h
+    obtain ⟨conv, _, hc⟩ := fixProcess029_eq _ action old new (run_fixM .process029 params action old new (mowner_all _) h)
+    have kk : ∀ cls, cls ∈ [Base.multiEnv.risingCls, Base.multiEnv.fallingCls, Base.multiEnv.openParenCls,
+        Base.multiEnv.closeParenCls, Base.multiEnv.todoCls, Base.multiEnv.ticCls, Base.multiEnv.eventCls,
+        Base.multiEnv.andCls, Base.multiEnv.equalCls, Base.multiEnv.charLitCls] → Base.multiEnv.kindOf cls = .code := by
+      decide +kernel
+    have k : ∀ cls s, Base.multiEnv.kindOf cls = .code → (Base.multiEnv.inst cls s).isCommentLike = false := by
+      intro cls s hk; simp [MEnv.inst, Tok.isCommentLike, hk, Kind.isCommentLike]
+    have kw : (Base.LineStruct.mkWs Base.multiEnv.c).isCommentLike = false := rfl
+    have f1 := fun s => k Base.multiEnv.risingCls s (kk _ (by simp))
+    have f2 := fun s => k Base.multiEnv.fallingCls s (kk _ (by simp))
+    have f3 := fun s => k Base.multiEnv.openParenCls s (kk _ (by simp))
+    have f4 := fun s => k Base.multiEnv.closeParenCls s (kk _ (by simp))
+    have f5 := fun s => k Base.multiEnv.todoCls s (kk _ (by simp))
+    have f6 := fun s => k Base.multiEnv.ticCls s (kk _ (by simp))
+    have f7 := fun s => k Base.multiEnv.eventCls s (kk _ (by simp))
+    have f8 := fun s => k Base.multiEnv.andCls s (kk _ (by simp))
+    have f9 := fun s => k Base.multiEnv.equalCls s (kk _ (by simp))
+    have f10 := fun s => k Base.multiEnv.charLitCls s (kk _ (by simp))
+    rcases hc with ⟨_, e, clk, _, _, hn⟩ | ⟨_, clk, e, _, _, hn⟩
+    · rw [hn]; unfold edgeCall
+      cases valIs e "rising_edge" <;>
+        simp only [commentSeq, List.flatMap_cons, List.flatMap_nil, f1, f2, f3, f4, f5, Bool.false_eq_true, if_false,
+          if_true, List.append_nil]
+    · rw [hn]; unfold eventExpr
+      simp only [commentSeq, List.flatMap_cons, List.flatMap_nil, f5, f6, f7, f8, f9, f10, kw, Bool.false_eq_true,
+        if_false, List.append_nil]
+
+open Base.Multi Base.LineStruct in
+/-- **the aligners** (concurrent_008, after_002, signal_012, library_009, process_028): whenever the fix
+    REWRITES a token value (the whitespace in front of the aligned token; signal_012: `lTokens[1]` of a
+    region of other than two tokens; the comment / keyword aligners: any action but "insert") every comment
+    stays at its line end in every context — `commentEndsLine` looks at token kinds only -/
+theorem bfix_multi_aligners_setValue_celSafe (params action : Base.KV) (old new : List Tok) :
+    (∀ o, (o = MOwner.concurrent008 ∨ o = .after002) → Base.fixByOwner o.name params action old = some (.ok new) →
+      (∃ ti prev, dgetInt action "token_index" = .ok ti ∧ Base.pyGet old (ti - 1) = .ok prev ∧ isWs prev = true) →
+      CelSafe old new) ∧
+    (Base.fixByOwner (MOwner.name .signal012) params action old = some (.ok new) → old.length ≠ 2 → CelSafe old new) ∧
+    (∀ o, (o = MOwner.alignCommentAbove ∨ o = .alignLeftRight) → Base.fixByOwner o.name params action old = some (.ok new) →
+      (∃ a, dget action "action" = .ok a ∧ valIs a "insert" = false) → CelSafe old new) := by
+  refine ⟨fun o ho h hw => ?_, fun h hl => ?_, fun o ho h ha => ?_⟩
+  · have hm := run_fixM o params action old new (mowner_all _) h
+    rcases ho with rfl | rfl <;> exact fixAlignComment_set_celSafe _ _ action old new hm hw
+  · exact fixSignal012_set_celSafe _ action old new (run_fixM .signal012 params action old new (mowner_all _) h) hl
+  · have hm := run_fixM o params action old new (mowner_all _) h
+    rcases ho with rfl | rfl <;> exact fixSetWs_set_celSafe _ _ action old new hm ha
+
+/-! ### END ag_bmulti -/
 
 end Vsgm.C02
